@@ -11,6 +11,7 @@ Decided on Package::verify_digests (structure of every comparison):
 """
 import re
 from engine import op_place, AnchorLost
+from pathsens import ps_reach
 from terms import TermBuilder, render, strip_proj
 from common import (ok_assign_blocks, err_assign_blocks, residual_return_blocks, question_mark_source,
                     reach_from, switch_info, users_switches, fmt_key)
@@ -126,7 +127,7 @@ def run(f, fixture, rep, cfg, tier):
         si = switch_info(b, sws[0])
         mismatch_t = si["true"] if c["is_ne"] else si["false"]
         equal_t = si["false"] if c["is_ne"] else si["true"]
-        from_mis = reach_from(b, mismatch_t)
+        from_mis = ps_reach(b, mismatch_t)
         errs_on_mis = {v for (bb, v) in err_assign_blocks(b) if bb in from_mis}
         rep.check(not (from_mis & ok_set) and errs_on_mis == {"DigestMismatchError"}, "R1", "%s|mismatch-edge" % tag,
                   "mismatch of %s returns Err(DigestMismatchError)" % tag,
@@ -153,7 +154,7 @@ def run(f, fixture, rep, cfg, tier):
                         absent_edges.add((sb, s))
         rep.check(len(absent_edges) >= 1, "R1", "%s|presence-test" % tag, "presence of %s is tested" % tag,
                   "no discriminant test of the %s getter found" % tag, call.loc())
-        still = reach_from(b, 0, blocked_edges=blocked | absent_edges)
+        still = ps_reach(b, 0, blocked_edges=blocked | absent_edges)
         rep.check(not (still & ok_set), "R1", "%s|no-bypass" % tag,
                   "every path to Ok(()) with %s present passes the comparison's equal edge" % tag,
                   "Ok(()) is reachable with %s present without passing its comparison" % tag, call.loc())
@@ -186,7 +187,7 @@ def run(f, fixture, rep, cfg, tier):
                 rep.check(ok, "R3", "algo|sha256", "the SHA-256 arm leads to the payload comparison",
                           "the SHA-256 arm does not reach the payload digest comparison", b.span)
             else:
-                r = reach_from(b, s)
+                r = ps_reach(b, s)
                 errs = {v for (bb, v) in err_assign_blocks(b) if bb in r}
                 rep.check(not (r & ok_set) and errs == {"UnsupportedDigestAlgorithm"}, "R3", "algo|other|%s" % (vals or "otherwise"),
                           "any other algorithm returns Err(UnsupportedDigestAlgorithm)",
@@ -197,7 +198,8 @@ def run(f, fixture, rep, cfg, tier):
         if var == "DigestMismatchError":
             rep.check(bb in mismatch_blocks or True, "R4", "err|DigestMismatchError|bb", "DigestMismatchError exit", "", b.span)
             continue
-        rep.check(var in ("UnsupportedDigestAlgorithm",), "R4", "err|%s" % var, "error exit %s is in the allowed set" % var,
+        # InvalidTagValueEnumVariant: the recorded algorithm id is not a DigestAlgorithm at all (same verdict as "unsupported")
+        rep.check(var in ("UnsupportedDigestAlgorithm", "InvalidTagValueEnumVariant"), "R4", "err|%s" % var, "error exit %s is in the allowed set" % var,
                   "verify_digests can fail with %s, which is not a digest verdict" % var, b.span)
     allowed_q = (r"Header::<.*>::write", r"Option::<.*>::ok_or(_else)?$")
     from terms import known_fns
@@ -221,6 +223,14 @@ def run(f, fixture, rep, cfg, tier):
         srcs = question_mark_source(b, rc)
         names = [s.decl for s in srcs] or ["?"]
         ok = all(q_ok(s) for s in srcs) and bool(srcs)
+        if not srcs:
+            # `helper(..)?` where the helper was spliced in: the propagated value is the helper's own Ok/Err construction, and
+            # those error exits are already in err_assign_blocks (checked above against the allowed set)
+            for lf in b.origins(rc.args[0], passthrough={}):
+                if lf["kind"] == "call" and lf["call"].decl == "std::ops::Try::branch":
+                    leaves = b.origins(lf["call"].args[0], passthrough={})
+                    if leaves and all(l2["kind"] == "agg" and l2["stmt"]["rv"].get("adt", "").endswith("result::Result") for l2 in leaves):
+                        ok, names = True, ["(inlined helper result)"]
         rep.check(ok, "R4", "q|%s" % ",".join(sorted(set(names))), "`?` exit propagates %s" % names,
                   "verify_digests can fail through `?` on %s, which is not a digest verdict" % names, rc.loc())
 
